@@ -16,7 +16,8 @@ Definition dec_cell (v : tval) : cell :=
                                           | 6 => SPlus | 7 => SCase | 8 => SOneChar | _ => SOther end%N;
      ce_resume := vbool (vnth 3 v);
      ce_mstate := dec_mstate (vn (vnth 4 v));
-     ce_tstate := match vn (vnth 5 v) with 0 => TNone | 1 => TWaiting | 2 => TServed | _ => TRemote end%N |}.
+     ce_tstate := match vn (vnth 5 v) with 0 => TNone | 1 => TWaiting | 2 => TServed | _ => TRemote end%N;
+     ce_party := match vn (vnth 6 v) with 0 => PNormal | 1 => PListen0 | _ => PTarget0 end%N |}.
 
 Definition expected (o : outcome) : N * N :=
   match o with
@@ -41,17 +42,20 @@ Open Scope N_scope.
    step: open  [0; who (0 none 1 half 2 L 3 T 4 S 5 X); mid (0 none 1 m1 2 m2); secret (0 none 1 right 2 wrong); tun; registered]
          setm  [1; m; state (0 active 1 revoked 2 expired 3 inactive 4 missing)]
          route [2; tun; node (0 remove, 1 the other node); m]      close [3; tun]      sleep [4]
+         srv   [5; tun]   the server itself starts a tunnel on mapping 3 (StartServerTunnel; source = the server's own connection 999)
    obs per step: [ack; role; snapshot]; snapshot = [b0; mid0; src0; tgt0; b1; mid1; src1; tgt1; forwarded tunnels; parked]
    connection of step i is connref i+1; tunnels are 7 and 8; clients L=11 T=12 S=13 X=14; M1=(11,12,101) M2=(13,14,102);
    after every step the routing poll of every parked request fires once (EResolve), as the harness awaits it *)
 Definition h_client (who : N) : client := match who with 2 => 11 | 3 => 12 | 4 => 13 | 5 => 14 | _ => 0 end.
 Definition h_state (k : N) : t_mstate := dec_mstate k.
 Definition h_mapping (m : N) (st : t_mstate) : option mapping :=
-  if N.eqb m 1 then mk_mapping 11 12 101 st else mk_mapping 13 14 102 st.
-Definition h_db0 : db := fun m => if N.eqb m 1 then h_mapping 1 MActive else if N.eqb m 2 then h_mapping 2 MActive else None.
+  if N.eqb m 1 then mk_mapping 11 12 101 st else if N.eqb m 2 then mk_mapping 13 14 102 st
+  else mk_mapping 0 12 103 st.     (* mapping 3: SERVER-SIDE listener (stored listening client id 0), target client T *)
+Definition h_db0 : db := fun m => if N.eqb m 1 then h_mapping 1 MActive else if N.eqb m 2 then h_mapping 2 MActive
+                            else if N.eqb m 3 then h_mapping 3 MActive else None.
 Definition h_req (mid sec tun : N) : request :=
   {| r_mid := mid; r_tid := 7 + tun;
-     r_secret := match sec with 0 => 0 | 1 => (if N.eqb mid 2 then 102 else 101) | 9 => (if N.eqb mid 2 then 101 else 102)
+     r_secret := match sec with 0 => 0 | 1 => (if N.eqb mid 2 then 102 else if N.eqb mid 3 then 103 else 101) | 9 => (if N.eqb mid 2 then 101 else 102)
                                 | k => 990 + k end; r_resume := false |}.
 Definition h_cfg (routing : bool) : config := {| cfg_self := 1; cfg_crossnode := routing; cfg_routing := routing |}.
 
@@ -79,6 +83,8 @@ Definition h_step (v : variant) (cfg : config) (s : sys) (i : N) (st : tval) : (
   | 1 => ((0, 0), resolve_all v cfg (step v cfg s (ESetMapping a (h_mapping a (h_state b)))))
   | 2 => ((0, 0), resolve_all v cfg (step v cfg s (ESetRoute (7 + a) (if N.eqb b 0 then None else Some {| ro_node := 2; ro_mid := c |}))))
   | 3 => ((0, 0), resolve_all v cfg (step v cfg s (ECloseBridge (7 + a))))
+  | 5 => ((0, 0), resolve_all v cfg (mkSys (s_db s) (upd (s_tun s) (7 + a) (Some {| b_mid := 3; b_src := Some 999; b_tgt := None |}))
+                                            (rt_register cfg (s_rt s) (7 + a) 3) (s_fwd s) (s_log s) (s_park s)))
   | _ => ((0, 0), s)
   end.
 
